@@ -328,6 +328,8 @@ class InstrSpec:
                     spec['reverse_bytecode_order'] = True
                 ops['specific_operands'] = {'only': spec}
             c['operands'] = ops
+        elif self.route == 'count0':
+            c['operands'] = {'count': 0}          # operand-less, said explicitly
         return c
 
     def fields(self, default_endian, combo, addr):
